@@ -48,6 +48,11 @@ def main():
             bad = [t for t, ax in res.proof["axioms"].items()
                    if not all(x in common.ALLOWED_AXIOMS for x in ax)]
             res.broken.append({"what": "theorems depend on axioms outside the allowed list", "theorems": bad})
+        if tier == "thorough" and res.proof:
+            ok, summary = common.coqchk_property(prop)
+            res.extra["coqchk"] = summary
+            if not ok:
+                res.broken.append({"what": "coqchk rejects the compiled development of %s" % prop, "log": summary})
     except common.Broken as e:
         res.broken.append({"what": "proof obligations of %s no longer check" % prop, "log": str(e)[-4000:]})
         common.log(str(e)[-3000:])
